@@ -58,3 +58,74 @@ Lemma mixed_forms_refuted :
   resave {| close_at_g := true; bare_g := true; drop_partial := false |} file_mixed_forms = Crash /\
   resave cfg_full file_mixed_forms = Ok (file_groups file_mixed_forms).
 Proof. split; [reflexivity|]. split; vm_compute; reflexivity. Qed.
+
+(* ====================================================================================== *)
+(* Part A: the reader computes the direct semantics on every valid line list               *)
+(* ====================================================================================== *)
+From Coq Require Import ZifyNat ZifyBool.
+
+Lemma oz_eqb_eq a b : oz_eqb a b = true -> a = b.
+Proof. destruct a, b; simpl; try congruence. intros H. apply Z.eqb_eq in H. congruence. Qed.
+Lemma oz_eqb_refl a : oz_eqb a a = true.
+Proof. destruct a; simpl; auto. apply Z.eqb_refl. Qed.
+Lemma corner_eqb_eq a b : corner_eqb a b = true -> a = b.
+Proof.
+  destruct a as [[v t] n], b as [[v' t'] n']. unfold corner_eqb.
+  rewrite !andb_true_iff. intros [[H1 H2] H3].
+  apply Z.eqb_eq in H1. apply oz_eqb_eq in H2. apply oz_eqb_eq in H3. congruence.
+Qed.
+Lemma corner_eqb_refl a : corner_eqb a a = true.
+Proof. destruct a as [[v t] n]. unfold corner_eqb. rewrite Z.eqb_refl, !oz_eqb_refl. reflexivity. Qed.
+
+Lemma find_idx_some c l p : find_idx corner_eqb c l = Some p -> nth_error l p = Some c.
+Proof.
+  revert p. induction l as [|y r IH]; simpl; intros p H; [discriminate|].
+  destruct (corner_eqb c y) eqn:E.
+  - apply corner_eqb_eq in E. injection H as <-. subst. reflexivity.
+  - destruct (find_idx corner_eqb c r); simpl in H; [|discriminate].
+    injection H as <-. simpl. apply IH. reflexivity.
+Qed.
+
+Lemma nth_error_app_some {A} (l e : list A) p x : nth_error l p = Some x -> nth_error (l ++ e) p = Some x.
+Proof. intros H. rewrite nth_error_app1; auto. apply nth_error_Some. congruence. Qed.
+
+Lemma map_nth_error_app {A} (l e : list A) ps xs :
+  map (nth_error l) ps = map Some xs -> map (nth_error (l ++ e)) ps = map Some xs.
+Proof.
+  revert xs. induction ps as [|p ps IH]; intros [|x xs] H; simpl in *; try discriminate; auto.
+  injection H as H1 H2. f_equal; auto. apply nth_error_app_some; auto.
+Qed.
+
+(* table lookups *)
+Lemma look_ok {A} (tbl : list A) z : idx_ok (length tbl) z = true ->
+  exists x, look tbl z = Ok (Some x) /\ slook tbl (Some z) = Some x.
+Proof.
+  unfold idx_ok, look, slook. rewrite andb_true_iff. intros [H1 H2].
+  apply Z.leb_le in H1. apply Z.leb_le in H2.
+  destruct (z - 1 =? -1)%Z eqn:E1; [lia|]. destruct (z - 1 <? 0)%Z eqn:E2; [lia|].
+  destruct (z <=? 0)%Z eqn:E3; [lia|].
+  destruct (nth_error tbl (Z.to_nat (z - 1))) eqn:E.
+  - eauto.
+  - apply nth_error_None in E. lia.
+Qed.
+Lemma look_opt_ok {A} (tbl : list A) o : oidx_ok (length tbl) o = true -> look_opt tbl o = Ok (slook tbl o).
+Proof.
+  destruct o as [z|]; simpl; auto. intros H. destruct (look_ok tbl z H) as (x & H1 & H2).
+  unfold slook in H2. rewrite H1, H2. reflexivity.
+Qed.
+Lemma slook_app {A} (l e : list A) o : oidx_ok (length l) o = true -> slook (l ++ e) o = slook l o.
+Proof.
+  destruct o as [z|]; simpl; auto. unfold idx_ok. rewrite andb_true_iff. intros [H1 H2].
+  apply Z.leb_le in H1. apply Z.leb_le in H2. destruct (z <=? 0)%Z; auto.
+  apply nth_error_app1. lia.
+Qed.
+Lemma idx_ok_mono n m z : n <= m -> idx_ok n z = true -> idx_ok m z = true.
+Proof. unfold idx_ok. rewrite !andb_true_iff, !Z.leb_le. lia. Qed.
+Lemma oidx_ok_mono n m o : n <= m -> oidx_ok n o = true -> oidx_ok m o = true.
+Proof. destruct o; simpl; auto. apply idx_ok_mono. Qed.
+Lemma corner_ok_mono a b c a' b' c' x : a <= a' -> b <= b' -> c <= c' ->
+  corner_ok a b c x = true -> corner_ok a' b' c' x = true.
+Proof.
+  destruct x as [[v t] n]. unfold corner_ok. rewrite !andb_true_iff. intros ? ? ? [[? ?] ?].
+  eauto using idx_ok_mono, oidx_ok_mono.
+Qed.
